@@ -15,8 +15,9 @@ RULE = ("Hypothesis: key sequences of motions, scrolls (^E ^Y ^D ^U ^F ^B z<CR> 
         "of the written buffer for one t, clipped to one horizontal offset, filler ~ past the end; (3) terminal cursor row = cursor line - t and its "
         "column inside the cells of the cursor character.  Non-trivial = the window was scrolled (t > 0) and the keys changed the number of lines; "
         "distinct by SHA-1 of the case")
-ASSUMPTIONS = ["texts use ASCII, tabs, single-width accented and double-width CJK characters (no RTL/combining: their cell widths on a real terminal "
-               "are the terminal's business); colours/attributes are not part of the property", "the message row is compared only between A and B"]
+ASSUMPTIONS = ["clauses (2) and (3): texts use ASCII, tabs, single-width accented and double-width CJK characters; a tenth of the cases adds Arabic/Persian "
+               "text with td/order/shape/lim changes and is judged by clause (1) only (both streams through the same emulator; the cell width of "
+               "combining characters on a real terminal is the terminal's business); colours/attributes are not part of the property", "the message row is compared only between A and B"]
 
 LINE_ATOMS = ["foo", "bar", " ", " ", "x", "int main(void)", "\t", "é", "日本", "a.b", "0123456789", "if (x) {", "}", "return;"]
 
@@ -30,6 +31,11 @@ def budget(tier):
 
 
 line = st.lists(st.sampled_from(LINE_ATOMS), max_size=6).map("".join)
+# right-to-left material: judged by clause (1) only (incremental drawing = full repaint), which needs no model of reordering and shaping
+RTL_ATOMS = ["سلام", "کتاب ", "لا", "بَ", "می‌روم", " ", "abc", "x ", "(", ")", "12", "\t", "و", "ـ", "日"]
+rtlline = st.lists(st.sampled_from(RTL_ATOMS), max_size=7).map("".join)
+RTLKEYS = [":se td=-1\n", ":se td=1\n", ":se td=2\n", ":se td=-2\n", ":se order=0\n", ":se order=2\n", ":se noshape\n", ":se shape\n", ":se lim=12\n", "i\x05ab\x1b", "A\x05 z\x1b",
+           "x", "3l", "2h", "$", "0", "8|", "15|", "rب", "~", "J", "dw", "D"]
 longline = st.tuples(line, st.integers(2, 12)).map(lambda t: (t[0] + " ") * t[1])
 
 KEYS = ["j", "k", "l", "h", "w", "b", "$", "0", "G", "1G", "5G", "H", "M", "L", "3j", "4k", "10l", "}", "{",
@@ -56,8 +62,13 @@ def case(draw):
     rows = draw(st.one_of(st.integers(3, 8), st.integers(3, 40)))
     cols = draw(st.one_of(st.integers(10, 30), st.integers(10, 120)))
     win = draw(st.integers(0, 4)) == 0 and rows >= 8        # (a split of fewer rows leaves windows without any text row)
-    keys = draw(st.lists(st.sampled_from(KEYS + (WKEYS * 3 if win else [])), min_size=1, max_size=25))
-    return {"lines": lines, "rows": rows, "cols": cols, "keys": keys, "win": win}
+    rtl = draw(st.integers(0, 9)) == 0
+    if rtl and lines:
+        for i in range(len(lines)):
+            if draw(st.integers(0, 2)):
+                lines[i] = draw(rtlline) + (lines[i] if draw(st.integers(0, 3)) == 0 else "")
+    keys = draw(st.lists(st.sampled_from(KEYS + (WKEYS * 3 if win else []) + (RTLKEYS * 2 if rtl else [])), min_size=1, max_size=25))
+    return {"lines": lines, "rows": rows, "cols": cols, "keys": keys, "win": win, "rtl": rtl}
 
 
 def strategy(tier):
@@ -154,6 +165,8 @@ def run_case(env, c):
     if bad:
         return Outcome(False, nt, cl, detail={"why": "incremental drawing differs from a full repaint (^L) in text row(s) %s" % bad[:5], "keys": c["keys"], "rows": rows,
                                              "cols": cols, "lines": c["lines"][:12], "incremental": [rows_a[i] for i in bad[:3]], "repaint": [rows_b[i] for i in bad[:3]]})
+    if c.get("rtl"):
+        return Outcome(True, nt, cl + ["clause1_only", "rtl"])
     if c["win"] or out_lines is None or cur is None:
         return Outcome(True, nt, cl + ["clause1_only"])
     # clause 2: a single t and left
